@@ -1,6 +1,6 @@
 """Per-property claims rendered into MANIFEST.json by tools/mkmanifest.py."""
 HOOK_COMMITS = []   # no source hooks needed so far
-FIX_COMMITS = ["0db9b37 fix: rule row ends at its first parameter (C06, C07)", "944e092 fix: juniper cmd_paths word boundary (C01)", "fe40c21 fix: cumulus refuses before emitting (C14)", "8acdda3 fix: cisco vlandb keeps VLANs of unchanged lines (C11)", "6c8c7e3 fix: huawei next_hop return (C14)", "42d8898 fix: arista large-community-list ACL (C14)", "9c40074 fix: refuse before emitting (C14)", "750ea7d fix: RouterOS join nested sections (C04)", "e01415d fix: optixtrans match expression (C18)", "12c75c5 fix: make_patch op order (C13)", "8c66073 fix: resolved pointers escaped (C13)", "4756b94 fix: huawei multi_all unchanged lines (C11)", "81e31d8 fix: implicit default block with its defaults (C17)", "5bfc12a fix: order_config word boundary (C08)", "943f14e fix: patch sort key (C08)", "1bcbbe1 fix: rewrite logic sends the new line ... (C01)", "28efb2a fix: file mode builds the patch from the complete diff (C16)", "c62ee59 fix: pool parent loop leaves only when the done queue is drained (C12)"]
+FIX_COMMITS = ["e5d4816 fix: multiblock_if opens its blocks under an explicit true condition (C10)", "0db9b37 fix: rule row ends at its first parameter (C06, C07)", "944e092 fix: juniper cmd_paths word boundary (C01)", "fe40c21 fix: cumulus refuses before emitting (C14)", "8acdda3 fix: cisco vlandb keeps VLANs of unchanged lines (C11)", "6c8c7e3 fix: huawei next_hop return (C14)", "42d8898 fix: arista large-community-list ACL (C14)", "9c40074 fix: refuse before emitting (C14)", "750ea7d fix: RouterOS join nested sections (C04)", "e01415d fix: optixtrans match expression (C18)", "12c75c5 fix: make_patch op order (C13)", "8c66073 fix: resolved pointers escaped (C13)", "4756b94 fix: huawei multi_all unchanged lines (C11)", "81e31d8 fix: implicit default block with its defaults (C17)", "5bfc12a fix: order_config word boundary (C08)", "943f14e fix: patch sort key (C08)", "1bcbbe1 fix: rewrite logic sends the new line ... (C01)", "28efb2a fix: file mode builds the patch from the complete diff (C16)", "c62ee59 fix: pool parent loop leaves only when the done queue is drained (C12)"]
 PENDING = {}
 CLAIMS = {
     "C14": {
@@ -232,3 +232,4 @@ _add("C15", "text", "Same-tier pairs whose names fit both templates of a rule (t
 _add("C17", "text", "Blocks also hold explicit companion lines handled by vendor-specific diff logics (VRF binding, address, description, mtu).")
 _add("C19", "text", "Generators may decline the device (supports_device() overridden while path() names a file: FileDeploy.Active) and may set their priority per instance before Entire.__init__.")
 _add("C20", "text", "Further jobs: trees holding rows that `!` rules describe (top level and inside a block), and two boxes of one model with different software versions.")
+_add("C10", "text", "multiblock_if(...) runs with explicit true / false conditions and with its default condition (with and without a None among the blocks): GenRun op menterif.")
